@@ -284,7 +284,7 @@ Definition make_commit (vs : voteset) : option commit :=
               | None => None end
   end.
 
-Inductive cerr := COk | CBasic | CSize | CHeight | CBlockID | CSig | CPower.
+Inductive cerr := COk | CBasic | CSize | CHeight | CBlockID | CSig | CAddr | CPower.
 
 Definition cs_validate_basic (cs : commitsig) : bool :=
   if N.eqb (cs_flag cs) FLAG_ABSENT then
@@ -300,18 +300,22 @@ Definition commit_validate_basic (c : commit) : bool :=
     forallb cs_validate_basic (c_sigs c)
   else true.
 
-(** the tally loop of VerifyCommit: Some power, or None on the first bad signature *)
+(** the tally loop of VerifyCommit: the tallied power, or the first failure.  A non-absent slot must
+    name the validator of that position (the sign bytes do not cover the address, but MedianTime
+    weighs the slot's timestamp by it) and carry its valid precommit signature. *)
+Inductive tres := TOk (z : Z) | TSig | TAddr.
 Fixpoint tally (chain h r : N) (cb want : blockid) (vals : list validator) (sigs : list commitsig)
-         (acc : Z) : option Z :=
+         (acc : Z) : tres :=
   match vals, sigs with
   | val :: vt, cs :: st =>
     if N.eqb (cs_flag cs) FLAG_ABSENT then tally chain h r cb want vt st acc
+    else if negb (N.eqb (cs_addr cs) (val_addr val)) then TAddr
     else
       let vb := if N.eqb (cs_flag cs) FLAG_COMMIT then cb else bid_zero in
       if sig_valid chain (val_addr val) PRECOMMIT h r vb (cs_time cs) (cs_sig cs) then
         tally chain h r cb want vt st (if bid_eqb want vb then wrap64 (acc + val_power val) else acc)
-      else None
-  | _, _ => Some acc
+      else TSig
+  | _, _ => TOk acc
   end.
 
 (** ValidatorSet.VerifyCommit *)
@@ -322,8 +326,9 @@ Definition verify_commit (vals : list validator) (chain : N) (want : blockid) (h
   else if negb (N.eqb h (c_height c)) then CHeight
   else if negb (bid_eqb want (c_bid c)) then CBlockID
   else match tally chain (c_height c) (c_round c) (c_bid c) want vals (c_sigs c) 0 with
-       | None => CSig
-       | Some got => if Z.leb got (two_thirds vals) then CPower else COk
+       | TSig => CSig
+       | TAddr => CAddr
+       | TOk got => if Z.leb got (two_thirds vals) then CPower else COk
        end.
 
 (* ------------------------------------------------------------------ *)
